@@ -420,3 +420,40 @@ func init() {
 		return nil
 	}
 }
+
+// CallBPFFunc runs one (non-entry) function of a program module on plain arguments: byte buffers become objects,
+// integers stay integers. Used for the probe wrappers around the programs' inline helpers.
+func (in *Interp) CallBPFFunc(prog, fn string, args []LLVal) LLVal {
+	mod, lerr := loadBPFModule(prog)
+	if lerr != nil {
+		panic(unsupported("llir: " + lerr.Error()))
+	}
+	r := &llRun{in: in, mod: mod, env: &LLEnv{Maps: map[string]*LLMap{}}, kind: "tc", globals: map[string]*LLObj{}, specMode: 1, specPure: true, specStack: true}
+	defer func() {
+		if rec := recover(); rec != nil {
+			if e, ok := rec.(llErr); ok {
+				panic(unsupported("llir: " + e.msg + " at " + r.where()))
+			}
+			panic(rec)
+		}
+	}()
+	f := mod.Funcs[fn]
+	if f == nil || f.Decl {
+		panic(unsupported("llir: no function " + fn + " in " + prog))
+	}
+	return r.callFunc(f, args)
+}
+
+func init() {
+	// vBPFCallU64(prog, fn string, buf []byte, x uint64) uint64: calls fn(buf, x) in the program module
+	harnessAPI["vBPFCallU64"] = func(in *Interp, fr *frame, a []Value) Value {
+		prog, fn := a[0].(string), a[1].(string)
+		obj := in.PacketFromSlice("arg", a[2].(SliceV))
+		obj.Len = nil
+		ret := in.CallBPFFunc(prog, fn, []LLVal{{T: in.tc.Const(0, 64), Obj: obj}, {T: a[3].(*Term)}})
+		if ret.T == nil || ret.Obj != nil {
+			panic(unsupported("llir: probe returned a non-integer"))
+		}
+		return in.tc.Resize(ret.T, 64, false)
+	}
+}
